@@ -60,7 +60,7 @@ def neutral(d):
         return {'variant': sid, 'status': 'SILENT' if not rules else 'ALARM', 'rules': rules}
     finally:
         shutil.rmtree(w, ignore_errors=True)
-ndirs = sorted(glob.glob('/verif/seeded/neutral/N*'))
+ndirs = sorted(glob.glob('/verif/seeded/neutral/[NM]*'))
 with cf.ThreadPoolExecutor(8) as ex:
     neutrals = list(ex.map(neutral, ndirs))
 ev_path = '/verif/evidence/%s.json' % prop
